@@ -70,18 +70,18 @@ def rowReduction (x z : BMat) : BMat × BMat × Int := rowReductionLoop x.c x z 
 
 /-! ## the linear system of Van den Nest–Dehaene–De Moor -/
 
+/-- coefficient of the unknown `(a | b | c | d)_m` (`t = 0 | 1 | 2 | 3`) in equation `(j, k)` -/
+def coeffEntry (z1 z2 : Adj) (j k m t : Nat) : Bool :=
+  match t with
+  | 0 => decide (m = k) && z1 j k
+  | 1 => decide (m = k) && decide (j = k)
+  | 2 => z1 m j && z2 m k
+  | _ => decide (m = j) && z2 j k
+
 /-- `_coeff_maker(z1, z2)`: row `n j + k`, column `4 m + (0 a | 1 b | 2 c | 3 d)` -/
 def coeffMaker (n : Nat) (z1 z2 : Adj) : BMat :=
   { r := n * n, c := 4 * n
-    f := fun row col =>
-      let j := row / n
-      let k := row % n
-      let m := col / 4
-      match col % 4 with
-      | 0 => decide (m = k) && z1 j k
-      | 1 => decide (m = k) && decide (j = k)
-      | 2 => z1 m j && z2 m k
-      | _ => decide (m = j) && z2 j k }
+    f := fun row col => coeffEntry z1 z2 (row / n) (row % n) (col / 4) (col % 4) }
 
 def vget (v : List Bool) (i : Nat) : Bool := v.getD i false
 
@@ -142,20 +142,22 @@ def gf2Inv (a : BMat) : Except Err BMat :=
     | .ok (_, t) =>
       if (mulM t a).beq (identM a.r) && (mulM a t).beq (identM a.r) then .ok t else .error .value
 
+/-- the `i`-th vector built by `_solution_basis_finder`: `x = A⁻¹ b_i` on the pivot columns, then the unit vector `e_i` is
+    spliced in at the free columns by successive `list.insert(col_list[j], basis_list[i, j])` -/
+def basisVec (m : BMat) (colList : List Nat) (ainv : BMat) (i : Nat) : List Bool :=
+  let col := colList.getD i 0
+  let x : List Bool := (List.range m.r).map fun k => parityTo m.r fun l => ainv.f k l && m.f l col
+  (List.range colList.length).foldl (fun acc j => pyInsert acc (colList.getD j 0) (decide (i = j))) x
+
 /-- `_solution_basis_finder(reduced, col_list)`: one basis vector per free column -/
 def solutionBasisFinder (m : BMat) (colList : List Nat) : Except Err (List (List Bool)) :=
-  let length := colList.length
   -- `possible_basis.reshape((n_cols - length, 1))`
-  if length > 0 ∧ m.r + length ≠ m.c then .error .value
+  if colList.length > 0 ∧ m.r + colList.length ≠ m.c then .error .value
   else
-    let a := deleteCols m colList
-    match gf2Inv a with
+    match gf2Inv (deleteCols m colList) with
     | .error e => .error e
     | .ok ainv =>
-      let basis : List (List Bool) := (List.range length).map fun i =>
-        let col := colList.getD i 0
-        let x : List Bool := (List.range a.r).map fun k => parityTo a.r fun l => ainv.f k l && m.f l col
-        (List.range length).foldl (fun acc j => pyInsert acc (colList.getD j 0) (decide (i = j))) x
+      let basis : List (List Bool) := (List.range colList.length).map fun i => basisVec m colList ainv i
       if basis.all (fun v => v.length == m.c && solves m v) then .ok basis else .error .assertion
 
 /-- `_is_valid_clifford(vector)`: every 2×2 block has determinant 1 -/
@@ -164,12 +166,15 @@ def isValidClifford (n : Nat) (v : List Bool) : Bool :=
 
 def vxor (a b : List Bool) : List Bool := List.zipWith xor a b
 
-/-- the `i`-th combination of `(solution_basis @ all_solutions) % 2`: basis vector `j` enters iff bit `d-1-j` of `i` is set
-    (`format(i, '0db')`) -/
-def combo (width : Nat) (basis : List (List Bool)) (i : Nat) : List Bool :=
-  let d := basis.length
-  (List.range d).foldl (fun acc j => if (i >>> (d - 1 - j)) % 2 = 1 then vxor acc (basis.getD j []) else acc)
-    (List.replicate width false)
+/-- `[list(format(i, f"0{d}b")) for i in range(2**d)]`: all coefficient vectors of length `d` in binary counting order,
+    most significant digit first -/
+def allCoefs : Nat → List (List Bool)
+  | 0 => [[]]
+  | d + 1 => (allCoefs d).map (false :: ·) ++ (allCoefs d).map (true :: ·)
+
+/-- one column of `(solution_basis @ all_solutions) % 2`: the sum of the basis vectors selected by `coef` -/
+def lin (width : Nat) (basis : List (List Bool)) (coef : List Bool) : List Bool :=
+  (List.zip coef basis).foldl (fun acc p => if p.1 then vxor acc p.2 else acc) (List.replicate width false)
 
 /-- all unordered pairs in the order of `itertools.combinations(basis, 2)` -/
 def pairs {α : Type} : List α → List (α × α)
@@ -193,6 +198,15 @@ def vecSolutionFinder (m : BMat) (colList : List Nat) (bits : List Bool) : Excep
       match keep.findIdx? (· == j) with
       | some k => vget x k
       | none => vget var j)
+
+/-- the trials of `_random_checker(reduced, col_list)`: one list of free-coordinate values per trial; returns the first
+    valid solution and the number of trials made -/
+def randomChecker (n : Nat) (m : BMat) (colList : List Nat) : List (List Bool) → Nat → Except Err (Option (List Bool) × Nat)
+  | [], k => .ok (none, k)
+  | t :: rest, k =>
+    match vecSolutionFinder m colList t with
+    | .error e => .error e
+    | .ok s => if isValidClifford n s then .ok (some s, k + 1) else randomChecker n m colList rest (k + 1)
 
 /-- what `is_lc_equivalent` returns, with the intermediate quantities the driver reports -/
 structure EqOut where
@@ -219,8 +233,9 @@ def isLcEquivalent (a b : BMat) (mode : Mode) (draws : List Bool) : Except Err E
   if n ≠ b.r then .error .assertion
   else
     let coeff := (coeffMaker n a.f b.f).norm
-    let (red, _, last) := rowReduction coeff { coeff with f := fun _ _ => false }
-    let rank : Int := last + 1
+    let rr := rowReduction coeff { coeff with f := fun _ _ => false }
+    let red := rr.1
+    let rank : Int := rr.2.2 + 1
     if rank ≥ 4 * n then .ok { sol := none, rank := rank, dim := 0, path := "full-rank" }
     else
       let keep := nonzeroRows red
@@ -235,22 +250,15 @@ def isLcEquivalent (a b : BMat) (mode : Mode) (draws : List Bool) : Except Err E
           | .ok basis =>
             let d := basis.length
             if d < 5 then
-              match (List.range (2 ^ d)).find? fun i => isValidClifford n (combo (4 * n) basis i) with
-              | some i => .ok { sol := some (combo (4 * n) basis i), rank := rank, dim := d, path := "all-combinations" }
+              match (allCoefs d).find? fun c => isValidClifford n (lin (4 * n) basis c) with
+              | some c => .ok { sol := some (lin (4 * n) basis c), rank := rank, dim := d, path := "all-combinations" }
               | none => .ok { sol := none, rank := rank, dim := d, path := "all-combinations" }
             else
               match mode with
               | .rand =>
-                let rec go (ts : List (List Bool)) (k : Nat) : Except Err EqOut :=
-                  match ts with
-                  | [] => .ok { sol := none, rank := rank, dim := d, path := "random", trials := k }
-                  | t :: rest =>
-                    match vecSolutionFinder m colList t with
-                    | .error e => .error e
-                    | .ok s =>
-                      if isValidClifford n s then .ok { sol := some s, rank := rank, dim := d, path := "random", trials := k + 1 }
-                      else go rest (k + 1)
-                go (chunk d draws) 0
+                match randomChecker n m colList (chunk d draws) 0 with
+                | .error e => .error e
+                | .ok (sol, k) => .ok { sol := sol, rank := rank, dim := d, path := "random", trials := k }
               | .det =>
                 match (pairs basis).find? fun p => isValidClifford n (vxor p.1 p.2) with
                 | some p => .ok { sol := some (vxor p.1 p.2), rank := rank, dim := d, path := "pair-sums" }
@@ -362,8 +370,13 @@ def applyGate (t : Tab) (name : String) (q : Nat) : Except Err Tab :=
     | _ => .error .value
   else .error .assertion
 
-def runGates (t : Tab) (gates : List (String × Nat)) : Except Err Tab :=
-  gates.foldlM (fun acc g => (applyGate acc g.1 g.2).map Tab.norm) t
+/-- `run_circuit(tab, gate_list)` for one-qubit gate lists (the tableau is re-tabulated after every gate) -/
+def runGates (t : Tab) : List (String × Nat) → Except Err Tab
+  | [] => .ok t
+  | g :: rest =>
+    match applyGate t g.1 g.2 with
+    | .error e => .error e
+    | .ok t' => runGates t'.norm rest
 
 /-- the product of the stabilizer rows selected by the anticommutation pattern of `g` with the destabilizers — the only
     candidate for `± g` in the stabilizer group of a valid tableau -/
